@@ -116,7 +116,7 @@ Step ==
                /\ nviol' = nviol + Count(b1) + Count(b2) + Count(b3)
                /\ ps' = r.pstate
                /\ UNCHANGED <<scen, max, ordered, alive, ts, okrun, canQ, canR, stored, prio, subseq, started, stopOk, settled, allDoneAt>>
-       [] ev \in {"pass_b", "pass_e", "wait_b", "take"} ->
+       [] ev \in {"pass_b", "pass_e", "wait_b", "take", "bad_co"} ->
             UNCHANGED <<scen, max, ordered, alive, ts, okrun, canQ, canR, stored, prio, subseq, started, ps, stopOk, settled, allDoneAt, nviol>>
        [] ev = "settled" ->
             \* after the settle passes of a running pool every accepted, not cancelled task has run
